@@ -60,6 +60,27 @@ def run(R):
             tree[bn] = ("f", b"an older backup\n", 0o644)
         jobs.append(dict(cut=R.cut, tree=tree, argv=opts + [b"-i", b"p.diff"]))
         meta.append((opts, nsec, how, before, bn, pre_existing, text))
+    # histories that create / delete / re-create one file within a single run, and hunks whose offsets cancel out
+    a2 = [(b"m%d" % i, "L") for i in range(1, 30)]
+    for opts in ([b"-b"], [b"-b", b"-z", b".bak"], [], [b"--posix", b"-b"]):
+        mk = lambda x, y, on, nn: emit.unified_text(gen.make_hunks(x, y, 3), on, nn, b"", b"")
+        mod = a[:5] + [(b"CHANGED", "L")] + a[6:]
+        hist = {"delete-then-create": (a, mk(a, [], b"f", b"/dev/null") + mk([], mod, b"/dev/null", b"f")),
+                "create-then-modify": (None, mk([], a, b"/dev/null", b"f") + mk(a, mod, b"f", b"f")),
+                "modify-then-delete": (a, mk(a, mod, b"f", b"f") + mk(mod, [], b"f", b"/dev/null")),
+                "create-then-delete-then-create": (None, mk([], a, b"/dev/null", b"f") + mk(a, [], b"f", b"/dev/null") + mk([], mod, b"/dev/null", b"f"))}
+        for name, (before, text) in hist.items():
+            tree = box.Tree({b"p.diff": ("f", text, 0o644)})
+            if before is not None:
+                tree[b"f"] = ("f", gen.render(before, "keep"), 0o644)
+            jobs.append(dict(cut=R.cut, tree=tree, argv=opts + [b"-i", b"p.diff"]))
+            meta.append((opts, 3, "absent" if before is None else "exact", before or [], backup_name(opts, b"f"), False, text))
+        # two hunks whose offsets cancel (+1 then -1): every hunk applied with an offset although the accumulated offset ends at 0
+        b2 = a2[:4] + [(b"X", "L")] + a2[5:20] + [(b"Y", "L")] + a2[21:]
+        text = emit.unified_text(gen.make_hunks(a2, b2, 2), b"f", b"f")
+        shifted = [(b"extra", "L")] + a2[:10] + a2[11:]
+        jobs.append(dict(cut=R.cut, tree=box.Tree({b"f": ("f", gen.render(shifted, "keep"), 0o644), b"p.diff": ("f", text, 0o644)}), argv=opts + [b"-F", b"0", b"-i", b"p.diff"]))
+        meta.append((opts + [b"-F", b"0"], 1, "offset", shifted, backup_name(opts, b"f"), False, text))
     res = drv.run_many(jobs)
     dist = {}
     for (opts, nsec, how, before, bn, pre_existing, text), r in zip(meta, res):
